@@ -20,11 +20,15 @@ def canon(line):
                 (joins if m.startswith("join[") else leaves).setdefault(c, set()).update(ids)
                 continue
         rest.append(t)
+    # a connection that got a "room" reply in this step switched rooms: whether it still saw somebody leave
+    # the room it was leaving (a session kicked by the same request closes in its own goroutine) is a race
+    # the statement does not care about -- its view starts afresh with the reply
+    switched = set(t.split("=", 1)[0] for t in rest if "=" in t and t[0] == "c" and t.split("=", 1)[1].startswith("room("))
     for c in set(joins) | set(leaves):
         j, l = joins.get(c, set()), leaves.get(c, set())
         if j - l:
             rest.append("%s=join[%s]" % (c, ",".join(sorted(j - l))))
-        if l - j:
+        if l - j and c not in switched:
             rest.append("%s=leave[%s]" % (c, ",".join(sorted(l - j))))
     digest = [t for t in rest if t.startswith("T=")]
     return " ".join(sorted(t for t in rest if not t.startswith("T=")) + digest)
